@@ -172,6 +172,7 @@ func runC12(src sim.Source, o Opts) *Result {
 		Route   int
 		Yields  int
 		Rerange bool // range the task's kept iterator sequences again while this request is in flight
+		CloneLate bool // shape clone: the clone is taken after the response was written, then the original's headers change
 		NoQuery bool // the request has no query string; its handler writes a value of its own into QueryParams()
 		Var     int  // generated routes: which parameters take a value that is also a static text (drives backtracking)
 	}
@@ -179,7 +180,7 @@ func runC12(src sim.Source, o Opts) *Result {
 	plans := make([][]reqPlan, nclients)
 	for c := range plans {
 		for i, n := 0, 2+src.Intn("nreq", 6); i < n; i++ {
-			plans[c] = append(plans[c], reqPlan{Shape: sim.Pick(src, "shape", shapes), Route: src.Intn("route", len(routes)), Yields: src.Intn("yields", 3), Rerange: src.Intn("rerange", 3) == 0, NoQuery: src.Intn("noquery", 4) == 0, Var: sim.Pick(src, "pvar", []int{0, 0, 1, 2, 3, 5, 6, 7})})
+			plans[c] = append(plans[c], reqPlan{Shape: sim.Pick(src, "shape", shapes), Route: src.Intn("route", len(routes)), Yields: src.Intn("yields", 3), Rerange: src.Intn("rerange", 3) == 0, NoQuery: src.Intn("noquery", 4) == 0, CloneLate: sim.Bool(src, "clonelate"), Var: sim.Pick(src, "pvar", []int{0, 0, 1, 2, 3, 5, 6, 7})})
 		}
 	}
 	withWriter := src.Intn("writer", 2) == 1
@@ -328,6 +329,12 @@ func runC12(src sim.Source, o Opts) *Result {
 							return
 						}
 					}
+					if pl.Shape == "clone" && pl.CloneLate && sv.Kind == model.KRoute {
+						// answer first, clone afterwards: the clone carries the response as it is now, and stays like that
+						// when the original's headers change later (a trailer, a middleware touching headers after next)
+						c.Writer().WriteHeader(status)
+						_, _ = c.Writer().Write([]byte(strings.Repeat("b", bodyLen)))
+					}
 					if pl.Shape == "clone" {
 						cl := &c12Clone{c: c.Clone(), tok: tok}
 						cl.first = ctxFingerprint(cl.c)
@@ -335,6 +342,12 @@ func runC12(src sim.Source, o Opts) *Result {
 							fail("clone taken in request %s shows data of %v: %s", tok, ot, cl.first)
 						}
 						clones = append(clones, cl)
+						if pl.CloneLate && sv.Kind == model.KRoute {
+							c.SetHeader("X-After-Clone", tok)
+							c.Writer().Header().Del("X-Resp")
+							c.SetHeader("X-Resp", tok)
+							return
+						}
 					}
 					if pl.Shape == "clonewith" {
 						req2 := world.NewRequest(method, host, path, "", "tok="+tok, nil)
